@@ -48,7 +48,8 @@ fn main() {
             // anything left on the line besides the newline?
             let mut rest = 0;
             for t in lx.flatten() {
-                if *t.token_type() != riscv_analysis::parser::TokenType::Newline {
+                // a trailing comment is not an operand
+                if !matches!(t.token_type(), riscv_analysis::parser::TokenType::Newline | riscv_analysis::parser::TokenType::Comment(_)) {
                     rest += 1;
                 }
             }
